@@ -2,7 +2,7 @@
    Only standard-library extraction directives are used (listed in DESIGN.md section 8). *)
 From Coq Require Import ZArith Extraction ExtrOcamlBasic ExtrOcamlZBigInt ExtrOcamlNatBigInt ExtrOcamlString.
 From BU Require Import Gen.Tables Lib.Bytes Model.Varint Spec.CompactSize Model.Script Spec.Opcodes Spec.ScriptSpec Model.Seq Spec.BIP68 Crypto.Sha256 Model.Tx Spec.Consensus Model.Sighash Spec.SighashSpec Model.Block Model.Der Spec.BIP66 Model.Base58 Model.Ripemd160 Spec.Ripemd160Spec
-  Model.Bech32 Model.EC Model.Schnorr Model.Taproot Model.Msg Spec.BIP341 Model.Keys Model.Address Model.HD.
+  Model.Bech32 Model.EC Model.Schnorr Model.Taproot Model.Msg Spec.BIP341 Model.Keys Model.Address Model.HD Model.Heap Model.Order.
 Extraction Language OCaml.
 (* The only directives of our own (trusted base, DESIGN.md section 8): bitwise operations on Z are
    mapped to zarith's, as ExtrOcamlZBigInt already does for shifts. *)
@@ -26,6 +26,7 @@ Extraction "model.ml"
   priv_init priv_to_wif priv_from_wif get_public_key pub_from_bytes pub_to_bytes pub_to_x_only is_y_even pub_to_hash160 hash160 sqrt_mod_list
   is_address_valid address_from_string address_to_string script_to_hash160 script_to_sha256 spk_p2pkh spk_p2sh spk_segwit
   segwit_to_string segwit_from_string
+  copy_tx locs_tx val_tx new_txin_default locs_in run
   hd_init hd_from_path hd_get_private_key is_mainnet
   message_digest add_magic_prefix verify_message sign_message recover_pubkey recover ecdsa_verify
   header_from_raw serialize_header get_block_hash get_target get_transaction_length block_from_raw
